@@ -53,6 +53,7 @@ type builder struct {
 	lblocks  map[string]*lblock
 	targets  *targets
 	inline   InlineFunc
+	rangeCond func(*ast.RangeStmt) ast.Expr
 	ret      *retCtx // inside the spliced body of a helper: what its return statements become
 	depth    int
 	stack    []*ast.FuncDecl
@@ -103,8 +104,21 @@ func Build(body *ast.BlockStmt, noReturn NoReturnFunc) *Graph {
 // whose argument is call-free and that the helper never assigns are not materialised (Canon prints them as the
 // argument); the others become locals assigned at the call.
 func BuildInlining(body *ast.BlockStmt, noReturn NoReturnFunc, inline InlineFunc) *Graph {
+	return BuildWith(body, BuildOpts{NoReturn: noReturn, Inline: inline})
+}
+
+// BuildOpts: RangeCond, when set, gives the condition that holds on entry to the body of a range statement (for a
+// range with a key over a slice or array: key < len(X)), or nil.
+type BuildOpts struct {
+	NoReturn  NoReturnFunc
+	Inline    InlineFunc
+	RangeCond func(*ast.RangeStmt) ast.Expr
+}
+
+func BuildWith(body *ast.BlockStmt, o BuildOpts) *Graph {
+	noReturn, inline := o.NoReturn, o.Inline
 	g := &Graph{}
-	b := &builder{g: g, noReturn: noReturn, lblocks: map[string]*lblock{}, inline: inline}
+	b := &builder{g: g, noReturn: noReturn, lblocks: map[string]*lblock{}, inline: inline, rangeCond: o.RangeCond}
 	g.Entry = b.newBlock("entry")
 	g.Exit = b.newBlock("exit")
 	g.Panic = b.newBlock("panic")
@@ -522,7 +536,14 @@ func (b *builder) rangeStmt(s *ast.RangeStmt, label *lblock) {
 	done := b.newBlock("range.done")
 	b.cur = loop
 	b.add(&RangeHead{Stmt: s})
-	b.branch(body, nil)
+	var bodyCond *F
+	if b.rangeCond != nil {
+		if c := b.rangeCond(s); c != nil {
+			bodyCond = FromExpr(c) // inside the body the key is below the length (nothing is known on the exit edge:
+			// the loop is also left by break)
+		}
+	}
+	b.branch(body, bodyCond)
 	b.branch(done, nil)
 	if label != nil {
 		label._break = done
